@@ -239,8 +239,9 @@ func (gb GenBank) String() string {
 	source = AddPrefix(source, indent)
 	b.WriteString("SOURCE      " + source + "\n")
 
-	organism := wrap.Space(gb.Fields.Source.Name, 67)
-	organism = AddPrefix(organism, indent)
+	// The organism name stays on its line: every further line of this
+	// sub-field is the taxonomy.
+	organism := AddPrefix(gb.Fields.Source.Name, indent)
 	b.WriteString("  ORGANISM  " + organism + "\n")
 
 	taxon := wrap.Space(strings.Join(gb.Fields.Source.Taxon, "; ")+".", 67)
